@@ -242,12 +242,14 @@ def clock_jump(ctx, at_call, delta, freeze=False):
 
 
 @op('arm_solver_fault')
-def arm_solver_fault(ctx, n, mode='noconv'):
-    """F8: the n-th next amncalc call reports failure."""
+def arm_solver_fault(ctx, n, mode='noconv', count=1):
+    """F8: the n-th next amncalc call (and count-1 following ones, i.e.
+    also a retry) reports failure."""
     from sim import seams
     if seams.SOLVER is None:
         return None
     seams.SOLVER.fail_at = seams.SOLVER.calls + n
+    seams.SOLVER.fail_count = count
     seams.SOLVER.mode = mode
     return None
 
